@@ -102,17 +102,23 @@ def halfSize : Nat := 1100
 def maxDigitLength : Nat := 256 - 25
 
 /-- the round-up back-trace over the fraction digits written so far (`acc` = those bytes, last first).
-Returns the new `acc`, the bytes stepped over (in buffer order) and whether it carried into the integer.
-NOTE (as in the source): a found digit is incremented WITHOUT testing `digit + 1 < radix`. -/
-def backtrace (r : Nat) : List Nat → List Nat → List Nat × List Nat × Bool
+Returns the new `acc`, the bytes stepped over (in buffer order; they stay in the array) and whether it carried into
+the integer.  Two versions of the source are modelled:
+* `carryFix = false` — the snapshot: the found digit is incremented WITHOUT testing `digit + 1 < radix`
+  (finding C07-generic-radix-roundup-invalid-digit: emits the character after the largest digit);
+* `carryFix = true` — after `/repo` commit dbb7ae7 "round-up must carry past the largest digit": a largest digit is
+  stepped over, the carry moves left and finally into the integer part. -/
+def backtrace (carryFix : Bool) (r : Nat) : List Nat → List Nat → List Nat × List Nat × Bool
   | [], g => ([], g, true)
   | c :: rest, g =>
     match charToDigitConst c r with
-    | some d => (digitToCharConst (d + 1) r :: rest, g, false)
-    | none => backtrace r rest (c :: g)
+    | some d =>
+      if ¬ carryFix ∨ d + 1 < r then (digitToCharConst (d + 1) r :: rest, g, false)
+      else backtrace carryFix r rest (c :: g)
+    | none => backtrace carryFix r rest (c :: g)
 
 /-- the fraction loop. `acc`: fraction bytes, last first. `fuel` = free bytes right of `fraction_cursor`. -/
-def fracLoop (f : Fmt) (r base : Nat) : Nat → Nat → Nat → List Nat → Res (List Nat × List Nat × Bool)
+def fracLoop (cf : Bool) (f : Fmt) (r base : Nat) : Nat → Nat → Nat → List Nat → Res (List Nat × List Nat × Bool)
   | 0, _, _, _ => .panic
   | fuel + 1, fraction, delta, acc =>
     let fraction := fmul f fraction base
@@ -121,9 +127,9 @@ def fracLoop (f : Fmt) (r base : Nat) : Nat → Nat → Nat → List Nat → Res
     let acc := digitToCharConst digit r :: acc
     let fraction := fsub f fraction (ofNat f digit)
     if (fraction > half f ∨ (fraction = half f ∧ digit % 2 = 1)) ∧ fadd f fraction delta > one f then
-      .ok (backtrace r acc [])
+      .ok (backtrace cf r acc [])
     else if delta ≥ fraction then .ok (acc, [], false)
-    else fracLoop f r base fuel fraction delta acc
+    else fracLoop cf f r base fuel fraction delta acc
 
 /-- `while (integer / base).exponent() > 0 { integer /= base; buffer[--integer_cursor] = b'0' }` -/
 def padLoop (f : Fmt) (base : Nat) : Nat → Nat → List Nat → Res (Nat × List Nat × Nat)
@@ -158,12 +164,12 @@ structure Gen where
 deriving Repr, DecidableEq
 
 /-- the fraction part of `write_float`: `(fraction bytes, garbage, carry into the integer)` -/
-def genFraction (f : Fmt) (r bits : Nat) : Res (List Nat × List Nat × Bool) :=
+def genFraction (cf : Bool) (f : Fmt) (r bits : Nat) : Res (List Nat × List Nat × Bool) :=
   let base := ofNat f r
   let fraction := fsub f bits (ffloor f bits)
   let delta := deltaOf f bits
   if fraction > delta then
-    (fracLoop f r base halfSize fraction delta []).bind fun x => .ok (x.1.reverse, x.2.1, x.2.2)
+    (fracLoop cf f r base halfSize fraction delta []).bind fun x => .ok (x.1.reverse, x.2.1, x.2.2)
   else .ok ([], [], false)
 
 /-- the integer part of `write_float` from the (possibly carried) integer value -/
@@ -172,8 +178,8 @@ def genInteger (f : Fmt) (r integer : Nat) : Res (List Nat) :=
   (padLoop f base halfSize integer []).bind fun x => digitLoop f r base x.2.2 x.1 x.2.1
 
 /-- digit generation of `radix::write_float` on the non-negative finite pattern `bits` -/
-def generate (f : Fmt) (r bits : Nat) : Res Gen :=
-  (genFraction f r bits).bind fun fr =>
+def generate (cf : Bool) (f : Fmt) (r bits : Nat) : Res Gen :=
+  (genFraction cf f r bits).bind fun fr =>
     let integer := if fr.2.2 then fadd f (ffloor f bits) (one f) else ffloor f bits
     (genInteger f r integer).bind fun ints => .ok ⟨ints, fr.1, fr.2.1⟩
 
@@ -314,10 +320,14 @@ def layoutText (fmt : Format) (feats : Features) (o : WOpts) (r : Nat) (g : Gen)
   if ¬ fmt.noExponentNotation ∧ require then sciText fmt feats o r g sciExp else nonsciText o r g
 
 /-- `radix::write_float::<F, FORMAT>(float, bytes, options)` for the non-negative finite pattern `bits`, on a `bytes`
-slice of length `len`: the text written (= `bytes[..returned count]`) or `PANIC` -/
-def writeFloat (feats : Features) (f : Fmt) (fmt : Format) (o : WOpts) (bits len : Nat) : Res (List Nat) :=
-  (generate f fmt.mantissaRadix bits).bind fun g =>
+slice of length `len`: the text written (= `bytes[..returned count]`) or `PANIC`.  `cf`: which back-trace (`backtrace`). -/
+def writeFloat (cf : Bool) (feats : Features) (f : Fmt) (fmt : Format) (o : WOpts) (bits len : Nat) : Res (List Nat) :=
+  (generate cf f fmt.mantissaRadix bits).bind fun g =>
     (layoutText (effFmt feats fmt) feats o fmt.mantissaRadix g).bind fun t =>
       if t.hi > len then .panic else .ok t.text
+
+/-- which round-up back-trace the code under test has: `true` = /repo at or after commit dbb7ae7 (carry fixed),
+`false` = the original snapshot.  The driver runs the model with this value. -/
+def repoHasCarryFix : Bool := true
 
 end LexVerif.Model.WriteRadix
